@@ -36,8 +36,8 @@ Section S.
   (** ** Soundness *)
   Lemma cn_sound : forall fuel s r,
     run_loop (cn_step p) fuel s = Ok r -> cn_nlen s <= 255 ->
-    exists e, name_at p (cn_off s) (cn_barrier s) (cn_lowest s) (cn_refs s) (255 - cn_nlen s) e /\
-              r = result_of s e.
+    exists ls e, name_at p (cn_off s) (cn_barrier s) (cn_lowest s) (cn_refs s) (255 - cn_nlen s) ls e /\
+                 r = result_of s e.
   Proof.
     induction fuel as [|fuel IH]; intros s r Hr Hn; cbn [run_loop] in Hr; [discriminate|].
     unfold cn_step in Hr.
@@ -53,8 +53,8 @@ Section S.
       destruct (nth_error p (ptr_target len lo)) as [rb|] eqn:Erb; [|discriminate].
       destruct (negb (N.land rb 192 =? 192)%N && (rb <? 1)%N) eqn:E6; [discriminate|].
       apply IH in Hr; [|cbn [cn_nlen]; exact Hn].
-      cbn [cn_off cn_barrier cn_lowest cn_refs cn_nlen] in Hr. destruct Hr as (e' & Hna & Hres).
-      exists (cn_off s + 2). split.
+      cbn [cn_off cn_barrier cn_lowest cn_refs cn_nlen] in Hr. destruct Hr as (ls & e' & Hna & Hres).
+      exists ls, (cn_off s + 2). split.
       + destruct (cn_refs s) as [|h] eqn:Eh; [discriminate|].
         replace (S h - 1) with h in Hna by lia.
         eapply NPtr with (tb := rb); eauto; try lia.
@@ -71,27 +71,27 @@ Section S.
       apply label_ok_iff in E6.
       destruct (N.to_nat len =? 0) eqn:E7.
       + assert (len = 0%N) by lia. subst len. inversion Hr; subst r.
-        exists (cn_off s + 1). split; [apply NRoot; [lia|exact Elen|lia]|].
+        exists [], (cn_off s + 1). split; [apply NRoot; [lia|exact Elen|lia]|].
         unfold result_of. destruct (cn_final s); [reflexivity|lia].
       + apply IH in Hr; [|cbn [cn_nlen]; lia].
-        cbn [cn_off cn_barrier cn_lowest cn_refs cn_nlen cn_final] in Hr. destruct Hr as (e & Hna & Hres).
-        exists e. split; [|exact Hres].
+        cbn [cn_off cn_barrier cn_lowest cn_refs cn_nlen cn_final] in Hr. destruct Hr as (ls & e & Hna & Hres).
+        exists (firstn (N.to_nat len) (skipn (cn_off s + 1) p) :: ls), e. split; [|exact Hres].
         eapply NLabel; eauto; try lia.
         replace (255 - cn_nlen s - (N.to_nat len + 1)) with (255 - (cn_nlen s + N.to_nat len + 1)) by lia.
         exact Hna.
   Qed.
 
   (** ** Completeness *)
-  Lemma cn_complete : forall off bar low hops budget e,
-    name_at p off bar low hops budget e ->
+  Lemma cn_complete : forall off bar low hops budget ls e,
+    name_at p off bar low hops budget ls e ->
     forall s fuel, cn_off s = off -> cn_barrier s = bar -> cn_lowest s = low -> cn_refs s = hops ->
       255 - cn_nlen s = budget -> cn_nlen s <= 255 -> low <= off -> bar <= length p ->
       cn_measure s < fuel ->
       run_loop (cn_step p) fuel s = Ok (result_of s e).
   Proof.
     induction 1 as [off bar low hops budget Hlt Hz Hb
-                   |off bar low hops budget len e Hlt Hlen Hl1 Hl63 Hfit Hok Hbud Hrest IH
-                   |off bar low hops budget hi lo tb e' Hlt Hhi Hptr Hlo Ht Htb Hnz Hrest IH];
+                   |off bar low hops budget len ls e Hlt Hlen Hl1 Hl63 Hfit Hok Hbud Hrest IH
+                   |off bar low hops budget hi lo tb ls e' Hlt Hhi Hptr Hlo Ht Htb Hnz Hrest IH];
       intros s fuel Eo Eb El Er Ebud Hn Hlo' Hbar Hfuel;
       (destruct fuel as [|fuel]; [lia|]); cbn [run_loop]; unfold cn_step; rewrite Eo, Eb.
     - destruct (bar <=? off) eqn:E1; [lia|]. rewrite Hz.
@@ -143,13 +143,12 @@ Proof.
   intros p off e. unfold check_compressed_name, cname. split.
   - intros H. destruct (length p <=? off) eqn:E1; [discriminate|].
     destruct (length p - off <? 1) eqn:E2; [discriminate|].
-    split; [lia|].
-    destruct (cn_sound p cn_fuel (cn_init p off) e H) as (e' & Hna & Hr); [cbn; lia|].
+    destruct (cn_sound p cn_fuel (cn_init p off) e H) as (ls & e' & Hna & Hr); [cbn; lia|].
     unfold cn_init in *. cbn [cn_off cn_barrier cn_lowest cn_refs cn_nlen] in Hna.
-    unfold result_of in Hr. cbn [cn_final] in Hr. subst e'. exact Hna.
-  - intros [Hlt H]. destruct (length p <=? off) eqn:E1; [lia|].
+    unfold result_of in Hr. cbn [cn_final] in Hr. subst e'. exists ls. split; [lia|exact Hna].
+  - intros (ls & Hlt & H). destruct (length p <=? off) eqn:E1; [lia|].
     destruct (length p - off <? 1) eqn:E2; [lia|].
-    pose proof (cn_complete p off (length p) off 16 255 e H (cn_init p off) cn_fuel) as Hc.
+    pose proof (cn_complete p off (length p) off 16 255 ls e H (cn_init p off) cn_fuel) as Hc.
     unfold cn_init in Hc at 1 2 3 4 5 6 7. cbn [cn_off cn_barrier cn_lowest cn_refs cn_nlen] in Hc.
     specialize (Hc eq_refl eq_refl eq_refl eq_refl eq_refl ltac:(lia) ltac:(lia) ltac:(lia)).
     rewrite Hc; [reflexivity|].
